@@ -263,8 +263,8 @@ func (m *ModuleInstance) buildTables(module *Module, skipBoundCheck bool) (err e
 			if elem.OffsetExpr.Opcode == OpcodeGlobalGet {
 				// Ignore error as it's already validated.
 				globalIdx, _, _ := leb128.LoadUint32(elem.OffsetExpr.Data)
-				global := m.Globals[globalIdx]
-				offset = uint32(global.Val)
+				lo, _ := m.Globals[globalIdx].Value()
+				offset = uint32(lo)
 			} else { // i32.const
 				// Ignore error as it's already validated.
 				o, _, _ := leb128.LoadInt32(elem.OffsetExpr.Data)
